@@ -102,7 +102,7 @@ def build_headers(block, variant, nlen, vlen):
     elif variant == 'path':
         base = [(n, sym_cells('path', vlen) if n == b':path' else v) for n, v in base]
     elif variant == 'te':
-        base.append((b'te', sym_cells('te', 8)))
+        base.append((b'te', sym_cells('te', vlen or 8)))
     elif variant == 'host-authority':
         base = [(n, sym_cells('authority', 2) if n == b':authority' else v) for n, v in base]
         base.append((b'host', sym_cells('host', 2)))
@@ -247,6 +247,10 @@ def shards(tier, seed):
                 out.append(Shard('%s/%s/host-authority' % (block, cn),
                                  make(block, cfg, 'host-authority', 0, 0), twin=False))
             out.append(Shard('%s/%s/te' % (block, cn), make(block, cfg, 'te', 0, 0), twin=False))
+            if cfg is CFGS[0] and (tier == 'thorough' or block in ('request', 'trailers')):
+                for vlen in ((7, 9, 10) if tier == 'thorough' else (9,)):
+                    out.append(Shard('%s/%s/te/value=%d' % (block, cn, vlen),
+                                     make(block, cfg, 'te', 0, vlen), twin=False))
             for vlen in (0, 1, 2):
                 out.append(Shard('%s/%s/cookies/value=%d' % (block, cn, vlen),
                                  make(block, cfg, 'cookies', 0, vlen), twin=False))
